@@ -1785,3 +1785,18 @@ MA('C13', 'Divergence scales once when the cell sides are close', DIFF,
    'Divergence._call', 'dx = self.range.cell_sides',
    'dx = self.range.cell_sides\nif np.allclose(dx, dx[0]):\n    dx = [dx[0]] * ndim',
    'np.allclose')
+MA('C03', 'adjoint padding applied to the input array itself',
+   'odl/util/numerics.py', 'resize_array', 'tmp = arr.copy()', 'tmp = arr',
+   'adjoint:ResizingOperator')
+MA('C16', 'adjoint padding applied to the input array itself',
+   'odl/util/numerics.py', 'resize_array', 'tmp = arr.copy()', 'tmp = arr',
+   'R2s')
+MA('C16', 'block copy skipped for an all-zero input',
+   'odl/util/numerics.py', '_assign_intersection',
+   'lhs_arr[lhs_slc] = rhs_arr[rhs_slc]',
+   'if rhs_arr.any():\n    lhs_arr[lhs_slc] = rhs_arr[rhs_slc]', 'R2s')
+MA('C03', 'right scalar multiple scales the input into out and calls the operator aliased',
+   'odl/operator/operator.py', 'OperatorRightScalarMult._call',
+   'tmp = self.domain.element()',
+   'tmp = out if (self.domain == self.range and x is not out) else self.domain.element()',
+   'pad_const=c] * a')
